@@ -13,7 +13,7 @@ sys.path.insert(0, os.path.join(os.path.dirname(os.path.abspath(__file__)), ".."
 import rsx
 
 N = "routee-compass-core/src/model/network/"
-OBLIGATIONS = ["edge_row", "get_edge", "get_vertex", "src_vertex_id", "dst_vertex_id", "edge_triplet"]
+OBLIGATIONS = ["edge_row", "get_edge", "get_vertex", "src_vertex_id", "dst_vertex_id", "edge_triplet", "out_edges_iter", "in_edges_iter"]
 MUST_FAIL = ["vacuity_probe"]
 
 HEAD = """#![allow(unused_imports, unused_variables, dead_code, unused_mut, unused_parens, unused_assignments)]
@@ -57,7 +57,18 @@ pub open spec fn adj_rev_agree(adj: Seq<AdjMap>, rev: Seq<AdjMap>) -> bool {
 """
 
 GRAPH = """
-pub struct Graph { pub edges: Box<[Edge]>, pub vertices: Box<[Vertex]> }
+pub struct Graph { pub adj: Box<[AdjMap]>, pub rev: Box<[AdjMap]>, pub edges: Box<[Edge]>, pub vertices: Box<[Vertex]> }
+// rule R3-dyn: `Box<dyn Iterator<Item = &'a EdgeId> + 'a>` is represented by an opaque iterator with a ghost sequence of the ids it will yield
+#[verifier::external_body] pub struct EdgeIter<'a> { _p: core::marker::PhantomData<&'a u8> }
+impl<'a> EdgeIter<'a> {
+    pub uninterp spec fn seq(&self) -> Seq<EdgeId>;
+    #[verifier::external_body] pub fn empty() -> (r: EdgeIter<'a>) ensures r.seq() == Seq::<EdgeId>::empty() { unimplemented!() }
+}
+impl AdjMap {
+    /// the keys in slot order (CompactOrderedHashMap::keys; C11 witnesses)
+    pub uninterp spec fn key_seq(&self) -> Seq<EdgeId>;
+    #[verifier::external_body] pub fn keys<'a>(&'a self) -> (r: EdgeIter<'a>) ensures r.seq() == self.key_seq() { unimplemented!() }
+}
 """
 
 
@@ -99,6 +110,17 @@ def build(x):
         f.name_return("r")
         f.add_spec("        " + spec)
         gf.append(f.text)
+    for name, fld in [("out_edges_iter", "adj"), ("in_edges_iter", "rev")]:
+        f = x.fn(N + "graph.rs", "impl Graph :: fn " + name)
+        f.rewrite(r"Box<dyn Iterator<Item = &'a EdgeId> \+ 'a>", "EdgeIter<'a>", 1, 1, rule="R3-dyn")
+        f.rewrite(r"Box::new\(std::iter::empty\(\)\)", "EdgeIter::empty()", 0, 1, rule="R3-dyn")
+        f.name_return("r")
+        arg = "src" if name == "out_edges_iter" else "dst"
+        f.add_spec("""        ensures
+            // C12/C15: a vertex id outside the graph has no incident edges (no panic); otherwise exactly the keys of that vertex' adjacency map, in slot order
+            r.seq() == (if %s.0 < self.%s@.len() { self.%s@[%s.0 as int].key_seq() } else { Seq::<EdgeId>::empty() }),""" % (arg, fld, fld, arg))
+        gf.append(f.text)
+    x.note("R3-dyn", "Graph::out_edges_iter / in_edges_iter: return type `Box<dyn Iterator<Item = &'a EdgeId> + 'a>` written EdgeIter<'a> (opaque, ghost sequence); `Box::new(std::iter::empty())` written EdgeIter::empty()")
     parts.append("impl Graph {\n" + "\n".join(gf) + "\n}\n")
     parts.append("""
 // vacuity guard: MUST FAIL
